@@ -687,9 +687,48 @@ fn variant_name(dbg: &str) -> String {
 
 // ---------------------------------------------------------------- corpus
 
+/// Small programs for the features no file under examples/ exercises (found by measuring which lines of the crates
+/// the generated cases never reach): stake delegation, a named publish block with a datum, policies given by a
+/// constructor with every combination of fields, parameters of every type, metadata keys and values of every kind.
+pub fn extra_corpus() -> Vec<(String, String)> {
+    let mut out: Vec<(String, String)> = vec![];
+    let frame = |body: &str, params: &str, defs: &str| -> String {
+        format!("party Sender;\nparty Receiver;\n{defs}\ntx t({params}) {{\n    input source {{\n        from: Sender,\n        min_amount: Ada(quantity) + fees,\n    }}\n{body}    output {{\n        to: Receiver,\n        amount: source - fees,\n    }}\n}}\n")
+    };
+    out.push(("x-stake-delegation.tx3".into(), frame("    cardano::stake_delegation_certificate {\n        pool: pool,\n        stake: Sender,\n    }\n", "quantity: Int, pool: Bytes", "")));
+    out.push(("x-stake-delegation-literal.tx3".into(), frame("    cardano::stake_delegation_certificate {\n        pool: 0x11111111111111111111111111111111111111111111111111111111,\n        stake: 0x22222222222222222222222222222222222222222222222222222222,\n    }\n", "quantity: Int", "")));
+    out.push(("x-vote-delegation.tx3".into(), frame("    cardano::vote_delegation_certificate {\n        drep: drep,\n        stake: Sender,\n    }\n", "quantity: Int, drep: Bytes", "")));
+    out.push(("x-publish-named.tx3".into(), frame("    cardano::publish registry {\n        to: Receiver,\n        amount: Ada(quantity),\n        datum: R { a: quantity, b: 0xab, },\n        version: 2,\n        script: 0x5101010023259800a518a4d136564004ae69,\n    }\n", "quantity: Int", "type R {\n    a: Int,\n    b: Bytes,\n}\n")));
+    out.push(("x-publish-no-script.tx3".into(), frame("    cardano::publish {\n        to: Receiver,\n        amount: Ada(quantity),\n        datum: (),\n    }\n", "quantity: Int", "")));
+    for (k, fields) in ["hash: 0xABCDEF1234,", "hash: 0xABCDEF1234,\n    script: 0xABCDEF1234,", "hash: 0xABCDEF1234,\n    ref: 0xABCDEF1234,", "hash: 0xABCDEF1234,\n    script: 0xABCDEF1234,\n    ref: 0xABCDEF1234,", "script: 0xABCDEF1234,", ""].iter().enumerate() {
+        let defs = format!("policy P {{\n    {fields}\n}}\n");
+        out.push((format!("x-policy-constructor-{k}.tx3"), frame("    mint {\n        amount: AnyAsset(P, \"TK\", quantity),\n        redeemer: (),\n    }\n", "quantity: Int", &defs)));
+        out.push((format!("x-policy-constructor-address-{k}.tx3"), frame("    output {\n        to: P,\n        amount: Ada(quantity),\n    }\n", "quantity: Int", &defs)));
+    }
+    // parameters of every type, each used in a datum
+    out.push(("x-param-types.tx3".into(), frame(
+        "    output {\n        to: who,\n        amount: Ada(quantity),\n        datum: D { flag: flag, blob: blob, items: items, table: table, anchor: anchor, inner: inner, n: n, },\n    }\n",
+        "quantity: Int, flag: Bool, blob: Bytes, who: Address, anchor: UtxoRef, items: List<Int>, table: Map<Int, Bytes>, inner: R, n: Amount",
+        "type R {\n    a: Int,\n}\ntype Amount = Int;\ntype D {\n    flag: Bool,\n    blob: Bytes,\n    items: List<Int>,\n    table: Map<Int, Bytes>,\n    anchor: UtxoRef,\n    inner: R,\n    n: Amount,\n}\n")));
+    // metadata: keys and values of every kind
+    let keys = ["1", "674", "0", "-1", "18446744073709551615", "\"k\"", "0xab", "quantity", "blob", "Sender", "[1,]", "{1: 2,}", "R { a: 1, }", "()", "true", "1 + 1"];
+    let vals = ["1", "\"memo\"", "0xab", "quantity", "blob", "[1, 2,]", "{1: 2,}", "R { a: 1, }", "()", "true", "Sender",
+        "\"0123456789012345678901234567890123456789012345678901234567890123456789\"",
+        "0x0101010101010101010101010101010101010101010101010101010101010101010101010101010101010101010101010101010101010101010101010101010101",
+        "0x010101010101010101010101010101010101010101010101010101010101010101010101010101010101010101010101010101010101010101010101010101010", "\"\"", "0x"];
+    for (i, k) in keys.iter().enumerate() {
+        let v = vals[i % vals.len()];
+        out.push((format!("x-metadata-key-{i}.tx3"), frame(&format!("    metadata {{\n        {k}: {v},\n    }}\n"), "quantity: Int, blob: Bytes", "type R {\n    a: Int,\n}\n")));
+    }
+    for (i, v) in vals.iter().enumerate() {
+        out.push((format!("x-metadata-value-{i}.tx3"), frame(&format!("    metadata {{\n        1: {v},\n        2: {v},\n    }}\n"), "quantity: Int, blob: Bytes", "type R {\n    a: Int,\n}\n")));
+    }
+    out
+}
+
 pub fn example_corpus() -> Vec<(String, String)> {
     let dir = std::env::var("TX3_REPO").unwrap_or_else(|_| "/repo".to_string()) + "/examples";
-    let mut out = vec![];
+    let mut out = extra_corpus();
     if let Ok(rd) = std::fs::read_dir(&dir) {
         let mut names: Vec<_> = rd.filter_map(|e| e.ok()).map(|e| e.path()).filter(|p| p.extension().map(|x| x == "tx3").unwrap_or(false)).collect();
         names.sort();
